@@ -10,10 +10,51 @@ PROPS = {
            "concurrent combinators completes the receiver at most once, exactly once when all children have finished and no stop callback is in "
            "flight, never before every child finished, with the documented result. Tie: every schedule with <=2 (quick) / <=3 (thorough) "
            "pre-emptions plus seeded random schedules of the real when_all (1-4 children, every outcome combination, racing/pre-start stop) is "
-           "replayed step by step on the extracted model (each shared access incl. memory order). Sequential composition (then/let_*/sequence/"
-           "finally/...) is not yet inside a Coq model; see DESIGN section 10."),
+           "replayed step by step on the extracted model (each shared access incl. memory order). Sequential and nested composition: "
+           "theorems over the Calc model for ALL expressions and scripts (at most one completion, none lost while no leaf is running, silence after completion), "
+           "tied by the K2 program differential."),
   "note": TB + "Sequential consistency assumed (the shim serialises threads). Stop-source internals belong to C03's model. Schedulers/timers/io completions are C06/C07/C14.",
   "design_ref": "5/C01",
+ },
+ "C04": {
+  "claimed": True, "drivers": [],
+  "technique": "Coq proof by induction on sender expressions over the Calc operational model (all scripts, all stop positions) + K2 program differential with the real algorithms",
+  "text": ("Theorems for ALL expressions over the modelled algorithm set (just*/then/upon_*/let_*/sequence/finally/when_all/stop_when/with_query_value/"
+           "unstoppable/materialize/done_as_optional over asynchronous and stop-reactive leaves) and ALL event scripts with the stop request at any position "
+           "(incl. before start): the request reaches every running connected leaf exactly once, children started later start stopped, losers of "
+           "when_all/stop_when are stopped, the composite completes during the request iff all its leaves completed, and no stop callback is registered "
+           "on the receiver's token at completion (refuted for stop_when as written before the fix). Tie: generated expressions x scripts run on the real "
+           "library, traces equal to the extracted model event by event. Races (stop vs last child on another thread) are decided by the E1 models of C01/C03/C19."),
+  "note": TB + "take_until/stop_immediately/when_any/let_value_with_stop_source/task/future are not in the Calc model (C13/C10/C09 units).",
+  "design_ref": "5/C04",
+ },
+ "C05": {
+  "claimed": True, "drivers": [],
+  "technique": "Coq proof: operational Calc machine = independent time-stamped denotational specification (all expressions, all stop-free scripts) + K2 program differential",
+  "text": ("Theorem C05_calc_result/timing: for ALL expressions without stop-reactive leaves and ALL stop-free scripts (every assignment of leaf outcomes, "
+           "every completion order, duplicates, unknown ids, every position of a throwing callable) the root completes iff, when, and with exactly the outcome "
+           "the compositional denotation written from the documentation prescribes. Tie: the same machine is compared event by event with the real library "
+           "on generated expressions x scripts (K2)."),
+  "note": TB + "when_any, retry_when, repeat_effect_until, into_variant, variant_sender, defer/just_from, via/on, sync_wait are not in the Calc model yet; values are ints.",
+  "design_ref": "5/C05",
+ },
+ "C11": {
+  "claimed": True, "drivers": [],
+  "technique": "Coq proof of soundness of Gallina mirrors of the headers' trait formulas against the Calc machine + comparison of the mirrors with the compiled sender_traits",
+  "text": ("PARTIAL (static-traits half). Theorems for ALL expressions: a sender whose mirrored traits say sends_done=false never completes with done (any script, "
+           "any stop); blocking always_inline/always completes inside start(); never does not. Tie: for every generated expression the three compile-time "
+           "traits and run-time blocking() printed by the compiled program equal the mirrors. Completion contexts (via/on/affinity, task) are not modelled."),
+  "note": TB + "Execution contexts are outside the Calc model: the first sentence of C11 (via/on/affine senders/task resume context) is not decided here.",
+  "design_ref": "5/C11",
+ },
+ "C12": {
+  "claimed": True, "drivers": [],
+  "technique": "Coq proof by induction on expressions (env threading invariant) + K2 program differential in which every leaf logs what its receiver answers",
+  "text": ("PARTIAL. Theorem for ALL expressions and scripts: every leaf observes exactly the query answers obtained by folding the documented overrides along its "
+           "path (innermost with_query_value wins; unstoppable / the algorithms' own stop sources decide stop_possible). Tie: K2. get_scheduler/get_allocator, "
+           "type-erased wrappers' declared query sets and allocate()/spawn allocator symmetry are not in the model yet."),
+  "note": TB + "Only the stop token and two user-defined query CPOs are modelled.",
+  "design_ref": "5/C12",
  },
  "C17": {
   "claimed": True,
